@@ -66,7 +66,7 @@ PROPS["C01"] = {
 PROPS["C07"] = {
     "level": "exploration",
     "technique": "property-based testing (rapidcheck): independent frame walker + byte accounting over generated batches/configurations",
-    "rule": "cases = generated batches of 0..12 (thorough ..40) packet recipes x DataContext{min,max}, half of them preceded by 1..3 "
+    "rule": "cases = generated batches of 0..12 (thorough ..40) packet recipes (one packet in six carries the errorInPayload flag) x DataContext{min,max}, half of them preceded by 1..3 "
             "earlier encode calls (other frame sizes, versions, types) on the same encoder object; non-trivial when the batch "
             "segments, aggregates, mixes message types, has a length within +-2 of the fit boundary, pads a frame up to min, or "
             "is the empty batch; distinct = distinct serialized cases",
@@ -102,7 +102,7 @@ PROPS["C09"] = {
     "level": "exploration",
     "technique": "stateful property-based testing (rapidcheck): generated operation sequences on one Encoder against a counter/identity model",
     "rule": "cases = sequences of 1..8 (thorough ..14) operations {setDeviceId, setStreamId (a third of them re-apply the value "
-            "already configured), restart, encode via the three overloads (a third of the batches hold packets with a zero-length payload, which open frames without messages; one in eight a packet of message type 0), encode 20000..33000 one-byte packets with max=25}; non-trivial when the 16-bit counter wraps, or an id "
+            "already configured), restart, encode via the three overloads (one call in ten with an empty batch; a third of the batches hold packets with a zero-length payload, which open frames without messages; one in eight a packet of message type 0), encode 20000..33000 one-byte packets with max=25}; non-trivial when the 16-bit counter wraps, or an id "
             "change/restart after emitted frames is followed by another encode; distinct = distinct serialized sequences",
     "assumptions": COMMON_ASSUMPTIONS,
     "level_text": "Model-based search over operation histories: every emitted frame header and getSequenceCounter() are compared "
@@ -117,7 +117,7 @@ PROPS["C09"] = {
 PROPS["C10"] = {
     "level": "exploration",
     "technique": "metamorphic property-based testing (rapidcheck): encoder with generated history vs fresh encoder on the same final batch",
-    "rule": "cases = (history of 0..4 (thorough ..6) encode calls incl. empty batches, zero-length-payload packets and calls ended part-way by the caller's iterator throwing; one case in twelve starts with 65515..65536 frames so that the final batch straddles the counter wrap; half of the cases encode every call from one pool of Packet objects refilled in place; final batch + context), final batch biased to "
+    "rule": "cases = (history of 0..4 (thorough ..6) encode calls incl. empty batches, zero-length-payload packets and calls ended part-way by the caller's iterator throwing; one case in twelve starts with 65515..65536 frames so that the final batch straddles the counter wrap; half of the cases encode every call from one pool of Packet objects refilled in place; a quarter run the history calls under other device / stream ids set through the setters (both, only the stream id, only the device id); final batch + context), final batch biased to "
             "continue the history's last message type and to need segmentation; non-trivial when the history is non-empty and the "
             "final batch segments or mixes message types; distinct = distinct serialized cases",
     "assumptions": COMMON_ASSUMPTIONS + ["differential oracle: the library on a fresh object is the reference, as the property states"],
@@ -132,11 +132,11 @@ PROPS["C10"] = {
 
 PROPS["C05"] = {
     "level": "exploration",
-    "technique": "model-based property-based testing (rapidcheck): generated multi-endpoint segment scripts and interleavings against a reference reassembler",
+    "technique": "model-based property-based testing (rapidcheck) + coverage-guided structure-aware fuzzing (libFuzzer on the same case struct): generated multi-endpoint segment scripts and interleavings against a reference reassembler",
     "rule": "cases = 1..4 endpoint scripts (unsegmented frames and messages of 2..12 (thorough ..40) segments of 0..200 (..1500) "
             "declared bytes, start counters around the 16-bit wrap, optional non-message trailing bytes after a segment; 1/25 of the "
             "segmented messages have a reassembled total at / just below 65535 or around 2^15, 1/60 consist of 255..700 segments of "
-            "0..2 bytes) merged by a generated schedule; non-trivial when a segmented message is delivered AND the history has a context switch to "
+            "0..2 bytes) merged by a generated schedule; one case in ten has an idle gap of 17..5000 frames of a foreign endpoint inside the first open message; a coverage-guided stage (libFuzzer on the binary image of the same case struct, structural mutator, normalised into this domain) explores the same space from the saved replays, generated samples and an empty corpus; non-trivial when a segmented message is delivered AND the history has a context switch to "
             "another endpoint inside an open message, a counter wrap inside a message, trailing bytes, or a zero-length segment; "
             "distinct = distinct serialized cases",
     "assumptions": COMMON_ASSUMPTIONS + ["expected deliveries are derived twice (from the script and from the byte-level reference "
@@ -193,7 +193,7 @@ PROPS["C18"] = {
 PROPS["C06"] = {
     "level": "fault_enumeration",
     "technique": "fault-injection property-based testing (rapidcheck) + exhaustive single/double fault enumeration on small streams; safety + bounded-recovery oracle",
-    "rule": "cases = (base stream of 1..3 endpoints (plain ids, or a base endpoint plus endpoints a key / hash / comparison could confuse with it) x 3..8 (thorough ..12) messages, unsegmented or 2..5 segments, frames from the "
+    "rule": "cases = (base stream of 1..3 endpoints (plain ids, or a base endpoint plus endpoints a key / hash / comparison could confuse with it) x 3..8 (thorough ..12) messages, unsegmented or 2..5 segments (one segmented message in sixteen with a total of 65500..65535 bytes, around 2^15, or anywhere up to 65535), frames from the "
             "independent segmenter (3/4) or from the library's Encoder (1/4); fault sequence of 1..3 (thorough ..6) of drop / duplicate / "
             "swap / move / corrupt-version / corrupt-message-type); plus exhaustively every single fault at every position of 40 "
             "(thorough 120) fixed base streams of <=12 frames (thorough: every pair on the first 14 of them); non-trivial when a fault hits a frame "
@@ -219,7 +219,7 @@ PROPS["C04"] = {
     "technique": "property-based testing (rapidcheck): decoder output vs an independent reference parse (frame walker + three-valued payload validators)",
     "rule": "cases = (optional prior frame history, CMP frame of any header message type incl. 0 with 0..5 (thorough ..8) unsegmented messages of every payload kind in the "
             "classes well-formed / inner length beyond the payload / shorter than its header / bus-error flag / slack, then truncated at "
-            "any offset or zero-padded 1..64 bytes); non-trivial when at least one packet is returned and the frame holds >=2 payload "
+            "any offset or zero-padded 1..64 bytes; one case in twelve is a frame of more than 64 KiB holding 2..5 messages of tens of thousands of bytes, one in twelve holds a message of 65400..65535 bytes); non-trivial when at least one packet is returned and the frame holds >=2 payload "
             "kinds, or truncation removes messages, or a prior history exists, or a must-be-invalid payload is present; distinct = "
             "distinct serialized cases",
     "assumptions": COMMON_ASSUMPTIONS + ["three-valued validators: outcomes the statement does not pin (analog sample type 2/3, interface status "
@@ -336,7 +336,7 @@ PROPS["C12"] = {
     "rule": "cases = (a) API writes of in-range values (incl. setData of CAN / CAN-FD / LIN / Ethernet: length and DLC bytes) onto objects with zero / ones / pseudo-random images (half of them with a data length that agrees with the data area), raw bytes compared with the "
             "image the layout table prescribes (exactly the field's bits replaced); (b) hand-laid images read back through every "
             "getter; (c) default objects: reserved bits zero, header sizes; (d) Packet::getRawCmpHeader / getRawMessageHeader for "
-            "generated packets of every message type; (e) the length-prefixed variable part of the capture-module / interface payloads, written onto fresh objects and over earlier content (setData or raw bytes), all raw bytes compared with the independent builder, and read back from hand-laid bytes; non-trivial when the field is wider than a byte or narrower than its container "
+            "generated packets of every message type; (e) the length-prefixed variable part of the capture-module / interface payloads, written onto fresh objects and over earlier content (setData or raw bytes), all raw bytes compared with the independent builder, and read back from hand-laid bytes, after which the same object receives by copy assignment another layout of exactly the same total size and is read again; non-trivial when the field is wider than a byte or narrower than its container "
             "(endianness / masks matter), or a packet raw-header / default-object case; distinct = distinct serialized cases",
     "assumptions": COMMON_ASSUMPTIONS + ["trusted base: the layout table in harness/common/fields.h and harness/oracle/wire.h, written from the ASAM CMP 1.0 / "
                                          "TECMP layouts (as in the Wireshark dissectors) and cross-checked against the real captures embedded in the "
@@ -380,7 +380,7 @@ PROPS["C14"] = {
     "rule": "cases = (domain Packet / ASAM payload / TECMP payload / the seven typed ASAM payload classes / the four typed TECMP payload classes (objects of the class itself), source and target of every kind incl. the payload-less packet, "
             "zero-length payloads, payloads with an invalid type and payloads rejected by validation, target relation independent / copy / copy with another payload type / copy with exactly one bit of one header field changed (every field x bit position enumerated) or with equal headers and a payload differing in one bit / one byte shorter / longer / one type bit / self, operation copy-construct / "
             "copy-assign / move-construct / move-assign incl. self-assignment and self-move-assignment), followed by mutation of either "
-            "side and destruction of the source; non-trivial when the target already held a payload, a length is zero, the source has no "
+            "side (for half of the packet copies: first of all through a writable payload reference obtained before the copy was made) and destruction of the source; non-trivial when the target already held a payload, a length is zero, the source has no "
             "payload, or the pair is equal-looking; distinct = distinct serialized cases",
     "assumptions": COMMON_ASSUMPTIONS + ["moved-from state is not asserted (only that it can be destroyed)",
                                          "packet equality is compared with field-by-field comparison only when both payloads are non-empty, as the statement says"],
@@ -401,7 +401,7 @@ PROPS["C16"] = {
     "rule": "cases = sequences of {update(capture-module status | interface status | data packet | message of another kind (other status payload types, vendor, control, invalid-typed) of device d, interface i), "
             "removeDeviceById, removeInterfaceById, clear} over d in {0,1,2,3,65535}, i in {0,1,2,0xFFFFFFFF} or, in half of the cases, over a base id plus arithmetically related ids (x+1, x+32, x+64, x+128, x+256, top bit flipped; interfaces also x+65536); the exhaustive alphabet is run under three id mappings (plain, congruent mod 64, congruent mod 256), packets built through the "
             "API or obtained from Decoder::decode; exhaustive: all sequences up to length 4 (thorough 5) over a 15-operation alphabet (incl. updates that repeat an earlier payload with other header fields), "
-            "random up to 60 (thorough 120) operations; non-trivial when an effective removal / clear is followed by a further status "
+            "random up to 60 (thorough 120) operations, in a tenth of the cases with one update turned into a burst over 8..1100 consecutive device / interface ids (many entries alive at once); non-trivial when an effective removal / clear is followed by a further status "
             "update; distinct = distinct serialized sequences",
     "assumptions": COMMON_ASSUMPTIONS + ["entry order is not asserted (only ids, counts, lookups and stored packets)"],
     "level_text": "Model-based search, exhaustive up to a stated bound: after every operation device and interface counts, lookups by id "
